@@ -184,7 +184,11 @@ type c29Run struct {
 
 // c29RunOnce runs the compactor from the initial bucket with a crash before mutation k (k==0: no
 // crash), restarts it and cycles until quiescence. reuseDir: the restarted instance keeps the data dir.
-func c29RunOnce(fx *fixture, o *c29Oracle, k int, reuseDir bool, tag string) (res c29Run, harnessErr error) {
+//
+// fault (instead of a crash): mutation k of the first instance is not applied and returns a transient
+// error to the compactor; the same instance keeps cycling (what the compactor's retry loop does) until
+// quiescence.
+func c29RunOnce(fx *fixture, o *c29Oracle, k int, reuseDir bool, tag string, fault ...bool) (res c29Run, harnessErr error) {
 	ctx, cancel := context.WithCancel(context.Background())
 	defer cancel()
 	inner := fx.freshBucket()
@@ -196,7 +200,12 @@ func c29RunOnce(fx *fixture, o *c29Oracle, k int, reuseDir bool, tag string) (re
 	cfg := stackConfig{dataDir: filepath.Join(dataDir, "d1"), deleteDelay: fx.sc.DeleteDelay, vertical: fx.sc.Vertical, replicaLabel: fx.sc.Replicas}
 
 	ob1 := newOpBucket(inner)
-	ob1.freezeAtMut = k
+	if len(fault) > 0 && fault[0] {
+		ob1.failAtMut = k
+		k = 0
+	} else {
+		ob1.freezeAtMut = k
+	}
 	ob1.observe = func(op opRec) {
 		o.check(inner, fmt.Sprintf("%s instance 1 after mutation %d (%s %s)", tag, op.MutN, op.Kind, op.Name), false)
 	}
@@ -257,6 +266,9 @@ func c29RunOnce(fx *fixture, o *c29Oracle, k int, reuseDir bool, tag string) (re
 	}
 	res.log = ob1.opLog()
 	res.mutations = ob1.mutations()
+	if ob1.failAtMut > 0 && ob1.frozenOp.N > 0 {
+		res.frozenOp = ob1.frozenOp
+	}
 	// let the parked goroutines of the dead instance unwind before the directories go away.
 	ob1.release()
 	if done1 != nil {
@@ -271,6 +283,15 @@ func c29RunOnce(fx *fixture, o *c29Oracle, k int, reuseDir bool, tag string) (re
 
 // c29Points returns the crash points worth preferring when sampling: those whose prefix contains a
 // result's meta.json while the deletion marks of its sources are not all written yet.
+// blockOf returns the block id an object name belongs to (zero ULID if none).
+func blockOf(name string) ulid.ULID {
+	id, err := ulid.Parse(strings.SplitN(name, "/", 2)[0])
+	if err != nil {
+		return ulid.ULID{}
+	}
+	return id
+}
+
 func c29Points(log []opRec) (window, rest []int) {
 	inWin := false
 	for _, op := range log {
@@ -418,6 +439,35 @@ func c29Scenario(rt *rapid.T, rec *kit.Rec, sc scenario, maxPoints int, bothDirs
 			}
 			rec.Case(fmt.Sprintf("k=%d/%d reuse=%v at=%s %s", k, M, reuse, r.frozenOp.Class, sc), r.frozen && r.window, c...)
 		}
+		// the same mutation fails with a transient error instead (no crash): the compactor sees the
+		// error of that one operation and keeps running.
+		tag := fmt.Sprintf("mutation %d fails with a transient error:", k)
+		r, err := c29RunOnce(fx, o, k, true, tag, true)
+		if err != nil {
+			rt.Fatalf("HARNESS: %v", err)
+		}
+		if o.violation != "" {
+			rt.Fatalf("C29 violated: %s\nscenario: %s", o.violation, sc)
+		}
+		c := []string{"fault", "mode-" + sc.Mode, "delay-" + sc.DeleteDelay.String()}
+		resultUpload := false
+		if r.frozenOp.N == 0 {
+			c = append(c, "fault-point-not-reached")
+		} else {
+			c = append(c, "fault-at-"+r.frozenOp.Class)
+			_, isSource := fx.perBlock[blockOf(r.frozenOp.Name)]
+			resultUpload = r.frozenOp.Kind == "upload" && !isSource
+			if resultUpload {
+				c = append(c, "fault-in-result-upload")
+			}
+		}
+		if r.quiescent {
+			c = append(c, fmt.Sprintf("quiescent-after-%d-cycles", r.cycles))
+		} else {
+			c = append(c, "not-quiescent")
+			rec.Note("not quiescent after %d cycles: %s errs=%v scenario=%s", r.cycles, tag, r.errs, sc)
+		}
+		rec.Case(fmt.Sprintf("fault k=%d/%d at=%s %s", k, M, r.frozenOp.Class, sc), resultUpload, c...)
 	}
 	return exhaustive
 }
